@@ -45,6 +45,13 @@ int main(int argc, char** argv)
     int const bound = rng_part ? 1 : (thorough ? 3 : 2);
     auto configs = config_lattice(thorough);
     auto prims = primary_lattice(thorough, /*extended=*/true);
+    // A BOUNDARY-limited step that arrives on the surface with a kinetic energy below the
+    // tracking cut (0.02 MeV; dE/dx 2 MeV/cm: 0.13 MeV, 0.0625 cm from the +x face of the inner
+    // box -> 0.005 MeV left), and one just above it (0.15 MeV -> 0.025 MeV): the cut must not
+    // be applied on a boundary step, the track crosses and is cut (or ranges out) beyond
+    for (int k = 1; k < 3; ++k)
+        for (double e : {0.13, 0.15})
+            prims.push_back({k, e, {1.4375, 0.125, 0.0}, {1, 0, 0}, fmt("k%d.eb%g.q2.a0", k, e)});
     if (rng_part)
     {
         // forced random words: the interaction outcomes stay at their defaults; a thinner
